@@ -85,100 +85,101 @@ def scalarmult(rep, prog):
     rep.sample({"reachable_from_crypto_scalarmult": [prog.by_key[k].path for k in seen][:8]})
 
 
+def half_of(f, operand):
+    """0 / 1 if the operand is a view of the first / second 32 bytes of a 64-byte buffer (by index
+    range or split_at), else None; also returns the buffer root."""
+    e = expr_of_operand(f, operand)
+    ls = list(operand_locals(operand))
+    root = cm.view_info(f, ls[0])[0] if ls else None
+    if e.k == "field" and e.b in ("0", "1") and e.a.k == "call" and e.a.a.path in cm.NARROWING and "split_at" in e.a.a.path:
+        if evaluate(call_arg_exprs(e.a.a)[1], {}) == 32:
+            return int(e.b), root
+        return None, root
+    if e.k == "call" and len(e.a.args) == 2:
+        rng = call_arg_exprs(e.a)[1]
+        if rng.k == "agg" and rng.a:
+            nm = rng.a.split("::")[-1]
+            vals = [evaluate(o, {}) for o in (rng.c or [])]
+            if nm == "RangeTo" and vals == [32]:
+                return 0, root
+            if nm == "RangeFrom" and vals == [32]:
+                return 1, root
+            if nm == "Range" and vals == [0, 32]:
+                return 0, root
+            if nm == "Range" and vals == [32, 64]:
+                return 1, root
+    return None, root
+
+
 def kx(rep, prog):
+    from ..inline import inline
+    from ..engines import auth_check
     cl = prog.by_path.get("classic::crypto_kx::crypto_kx_client_session_keys", [])
     sv = prog.by_path.get("classic::crypto_kx::crypto_kx_server_session_keys", [])
     if not cl or not sv:
         rep.violation("ANCHOR", "crypto_kx session key functions", "public functions not found")
         return
-    cl, sv = cl[0], sv[0]
     sm = prog.by_path.get("classic::crypto_core::crypto_scalarmult", [None])[0]
-    # secret-derived locals per function: out-param of crypto_scalarmult, and parameters fed by them
-    secret = {}
-    for f in (cl, sv):
+    # both sides are analysed with their private helpers (shared derivation, zero test, ...) folded in
+    # public signature (positional): (rx, tx, own_pk, own_sk, peer_pk)
+    for side, f0, want_copy, want_hash in (("client", cl[0], {(1, 0), (2, 1)}, [3, 5]), ("server", sv[0], {(2, 0), (1, 1)}, [5, 3])):
+        f = inline(prog, f0)
         s = set()
         for c in f.calls():
             if sm in prog.callee_fns(c):
                 for l in operand_locals(c.args[0]):
                     s.add(cm.view_info(f, l)[0])
-        secret[f.key] = s
-        for c in f.calls():
-            for t in prog.callee_fns(c):
-                if t is sm:
-                    continue
-                for i, a in enumerate(c.args):
-                    if operand_locals(a) and (f.backward_slice(operand_locals(a)) & s) and i + 1 <= t.argc:
-                        secret.setdefault(t.key, set()).add(i + 1)
-
-    def prims(f):
-        out = []
-        s = secret.get(f.key, set())
-        if not s:
-            return out
+        prims = []
         for c in cm.ct_eq_calls(f):
             roots = [cm.view_info(f, l)[0] for a in c.args for l in operand_locals(a)]
-            exprs = call_arg_exprs(c)
-            zero = any(_is_zero_array(f, a) for a in c.args)
-            if (set(roots) & s) and zero:
-                out.append(c)
-        return out
-    cands = [prog.by_key[k] for k in prog.reach_fns([cl, sv]) if returns_result(prog.by_key[k])]
-    auth, results = auth_fixpoint(prog, cands, prims, success=(CT_F, CT_T))
-    for g in cands:
-        for c in prims(g):
-            ok, ws = cm.equal_widths(g, c)
+            if (set(roots) & s) and any(_is_zero_array(f, a) for a in c.args):
+                prims.append(c)
+        for c in prims:
+            ok, ws = cm.equal_widths(f, c)
             known = [w for w in ws if w is not None]
-            rep.ob("KX-WIDTH", "%s|zero comparison width" % g.path, ok and len(known) == 2 and known[0] == 32,
+            rep.ob("KX-WIDTH", "%s|zero comparison width" % f.path, ok and len(known) == 2 and known[0] == 32,
                    "shared-secret comparison operand widths %s: a slice ct_eq of unequal lengths is constantly false, "
                    "so the all-zero check could never fire" % (ws,), loc=c.loc())
-    for f in (cl, sv):
-        r = results[f.key]
-        rep.ob("KX-AUTH", f.path, f.key in auth,
-               "Ok only behind the not-all-zero edge of a shared-secret comparison" if f.key in auth else
+        r = auth_check(prog, f, prims, set(), success=(CT_F, CT_T))
+        rep.ob("KX-AUTH", f.path, bool(prims) and r.authenticated,
+               "Ok only behind the not-all-zero edge of a shared-secret comparison" if prims and r.authenticated else
                "an Ok return is reachable without a check of the shared secret against all-zero: %s" % (
                    "; ".join("exit %s" % f.loc(b) for b, p in r.bad_exits) or "no check found"), loc=f.loc())
-    # MIRROR
-    helper = None
-    for c in cl.calls():
-        for t in prog.callee_fns(c):
-            if t.key in auth and t is not sm:
-                helper = t
-    if helper is None:
-        rep.violation("MIRROR", "common derivation helper", "client function calls no authenticated derivation helper", loc=cl.loc())
-        return
-
-    def args_roots(f):
+        # the X25519 operands: own secret key (#4) as scalar, peer public key (#5) as point
         for c in f.calls():
-            if helper in prog.callee_fns(c):
-                return [cm.view_info(f, list(operand_locals(a))[0])[0] if operand_locals(a) else None for a in c.args], c
-        return None, None
-    ca, cc = args_roots(cl)
-    sa, sc = args_roots(sv)
-    ok = ca is not None and sa is not None and ca[:2] == [1, 2] and sa[:2] == [2, 1]
-    rep.ob("MIRROR", "rx/tx mirrored", ok, "client passes parameters %s, server %s as (x1, x2)" % (ca[:2] if ca else None, sa[:2] if sa else None),
-           loc=cc.loc() if cc else cl.loc())
-    okp = ca is not None and sa is not None and ca[2:4] == [3, 5] and sa[2:4] == [5, 3]
-    rep.ob("MIRROR", "client_pk/server_pk order", okp,
-           "client passes (client_pk=#%s, server_pk=#%s); server passes (client_pk=#%s, server_pk=#%s)" % (
-               ca[2] if ca else None, ca[3] if ca else None, sa[2] if sa else None, sa[3] if sa else None), loc=sc.loc() if sc else sv.loc())
-    # hash input order in the helper
-    h = helper
-    inits = [c for c in h.calls() if c.rpath.endswith("crypto_generichash_init")]
-    ups = [c for c in h.calls() if c.rpath.endswith("crypto_generichash_update")]
-    fins = [c for c in h.calls() if c.rpath.endswith("crypto_generichash_final")]
-    okc = len(inits) == 1 and len(ups) == 3 and len(fins) == 1
-    rep.ob("KX-HASH", "init/3 updates/final", okc, "init=%d update=%d final=%d" % (len(inits), len(ups), len(fins)), loc=h.loc())
-    if okc:
-        ups.sort(key=lambda c: len(h.dom.get(c.bb, ())))
-        roots = [cm.view_info(h, list(operand_locals(c.args[1]))[0])[0] for c in ups]
-        rep.ob("KX-HASH", "order shared||client_pk||server_pk", roots == [5, 3, 4] and all(
-            ups[i].bb in h.dom.get(ups[i + 1].bb, ()) for i in range(2)), "updates absorb parameters %s" % roots, loc=ups[0].loc())
+            if sm in prog.callee_fns(c):
+                sk = cm.view_info(f, list(operand_locals(c.args[1]))[0])[0]
+                pk = cm.view_info(f, list(operand_locals(c.args[2]))[0])[0]
+                rep.ob("MIRROR", "%s|X25519(own secret key, peer public key)" % side, (sk, pk) == (4, 5),
+                       "scalar <- parameter #%s, point <- parameter #%s" % (sk, pk), loc=c.loc())
+        # hash: BLAKE2b-512(shared || client_pk || server_pk)
+        inits = [c for c in f.calls() if c.rpath.endswith("crypto_generichash_init")]
+        ups = [c for c in f.calls() if c.rpath.endswith("crypto_generichash_update")]
+        fins = [c for c in f.calls() if c.rpath.endswith("crypto_generichash_final")]
+        okc = len(inits) == 1 and len(ups) == 3 and len(fins) == 1
+        rep.ob("KX-HASH", "%s|init/3 updates/final" % side, okc, "init=%d update=%d final=%d" % (len(inits), len(ups), len(fins)), loc=f.loc())
+        if not okc:
+            continue
+        ups.sort(key=lambda c: len(f.dom.get(c.bb, ())))
+        roots = [cm.view_info(f, list(operand_locals(c.args[1]))[0])[0] for c in ups]
+        rep.ob("KX-HASH", "%s|order shared||client_pk||server_pk" % side, roots[0] in s and roots[1:] == want_hash and all(
+            ups[i].bb in f.dom.get(ups[i + 1].bb, ()) for i in range(2)),
+            "updates absorb %s (expected the X25519 output, then parameters #%s and #%s)" % (
+                [("shared" if r_ in s else "#%s" % r_) for r_ in roots], want_hash[0], want_hash[1]), loc=ups[0].loc())
         outlen = evaluate(call_arg_exprs(inits[0])[1], {})
-        rep.ob("KX-HASH", "output length 64", outlen == 64, "generichash output length %s" % outlen, loc=inits[0].loc())
-        # split
-        from .c01 import boundaries
-        offs, _ = boundaries(prog, h)
-        rep.ob("KX-HASH", "split at 32", 32 in offs, "boundary offsets %s" % sorted(offs), loc=h.loc())
+        rep.ob("KX-HASH", "%s|output length 64" % side, outlen == 64, "generichash output length %s" % outlen, loc=inits[0].loc())
+        # rx/tx: which half of the hash output goes to which output parameter
+        hroot = cm.view_info(f, list(operand_locals(fins[0].args[1]))[0])[0]
+        got = set()
+        for c in f.calls():
+            if c.path in cm.COPY and len(c.args) == 2 and fins[0].bb in f.dom.get(c.bb, ()):
+                half, root = half_of(f, c.args[1])
+                dst = cm.view_info(f, list(operand_locals(c.args[0]))[0])[0] if operand_locals(c.args[0]) else None
+                if root == hroot and dst in (1, 2):
+                    got.add((dst, half))
+        rep.ob("MIRROR", "%s|rx/tx halves" % side, got == want_copy,
+               "(output parameter, half of the hash) pairs %s; expected %s (client: rx=first, tx=second; server mirrored)" % (sorted(got, key=repr), sorted(want_copy)),
+               loc=fins[0].loc())
 
 
 def _is_zero_array(f, a):
@@ -195,10 +196,9 @@ def beforenm(rep, prog):
     if not fs:
         rep.violation("ANCHOR", "crypto_box_beforenm", "public function not found")
         return
-    seen = prog.reach_fns(fs)
+    from ..inline import inline
     done = False
-    for k in seen:
-        g = prog.by_key[k]
+    for g in [inline(prog, fs[0], cross=lambda h: "crypto_box" in h.file)]:
         hs = [c for c in g.calls() if c.rpath.endswith("crypto_core_hsalsa20")]
         sm = [c for c in g.calls() if c.rpath.endswith("crypto_core::crypto_scalarmult")]
         if not hs or not sm:
